@@ -201,6 +201,8 @@ def check(pid, tier='quick', seed=0):
     print(f'{pid} [{tier}] deductive: {len(discharged)}/{nobl} obligations discharged, {len(refuted)} refuted, '
           f'{len(undecided)} undecided, {len(canaries)} canaries ok; bounded: '
           f'{bounded["evaluations"] if bounded else 0} cases, {len(bfail)} failures; {wall:.1f}s')
+    if bounded and bounded.get('not_evaluated'):
+        print(f'NOTE property={pid} bounded stand-in stopped at its wall-clock budget: {bounded["not_evaluated"]} cases not evaluated')
     if violations:
         for l in violations:
             print(l)
